@@ -14,11 +14,11 @@ import (
 
 // Input of one KV operation.
 type Input struct {
-	Op     string // get has set delete deleteprefix iterate iteratekeys
-	Key    string // full stored key (realm||key) or full prefix
-	Val    string
-	Strip  int  // bytes stripped from reported keys (realm length)
-	Back   bool // backward iteration
+	Op    string // get has set delete deleteprefix iterate iteratekeys
+	Key   string // full stored key (realm||key) or full prefix
+	Val   string
+	Strip int  // bytes stripped from reported keys (realm length)
+	Back  bool // backward iteration
 }
 
 // Output of one KV operation.
